@@ -124,6 +124,7 @@ type ContractSet struct {
 	LemmaOrd  []string
 	Ghosts    map[string]string // ghost global name -> type text
 	GhostFlds map[string]string // "T.f" -> type text (ghost fields)
+	IndexElt  bool
 	GhostDefault map[string]string // "T.f" -> spec expression: value for a zero-initialised object
 	Guarded   []Guarded
 	Monitors  []*Monitor
@@ -147,7 +148,7 @@ var clauseKW = map[string]bool{"arith": true, "ghost": true, "pure": true, "opaq
 	"requires": true, "ensures": true, "ensures_panic": true, "modifies": true, "loop": true, "invariant": true,
 	"use": true, "guarded": true, "monitor": true, "typeinv": true, "maypanic": true, "nopanic": true, "trusted": true,
 	"purevar": true, "cover": true, "cases": true, "assumption": true, "property": true, "atomic": true, "inline": true,
-	"havoc": true, "ghostfield": true, "opt": true, "end": true, "opaquediv": true, "reveal": true, "auto": true, "table": true, "exit": true, "cond": true, "assume": true, "atrelease": true, "blocking": true}
+	"havoc": true, "ghostfield": true, "opt": true, "end": true, "opaquediv": true, "reveal": true, "auto": true, "table": true, "exit": true, "cond": true, "assume": true, "atrelease": true, "blocking": true, "index": true}
 
 type rawLine struct {
 	text string
@@ -301,6 +302,9 @@ func (cs *ContractSet) Load(path string, commentOnly bool) error {
 			} else {
 				cs.Arith = rest
 			}
+		case "index":
+			// `index elt`: slice element reads s[i] become elt(content, offset, i) applications (see FnCtx.sliceElem)
+			cs.IndexElt = strings.TrimSpace(rest) == "elt"
 		case "property":
 			ps := strings.Fields(strings.ReplaceAll(rest, ",", " "))
 			if curFn != nil {
